@@ -166,6 +166,13 @@ func (e *Enc) runHooksNamed(when, name string, ord int, at posser, args []Term, 
 
 func (e *Enc) execGhostStmt(se *specEnv, st GhostStmt, what string, pos token.Pos) error {
 	switch st.Kind {
+	case "assume":
+		t, err := se.evalBool(st.Value)
+		if err != nil {
+			return fmt.Errorf("%s:%d: ghost assume: %v", e.fc.File, st.Line, err)
+		}
+		e.sc.AssertNamed(Implies(e.curGuard, t), "ASSUMED (unchecked) "+st.Text)
+		e.assumed["explicit assumption in the contract of "+e.key+": "+st.Text] = true
 	case "assert":
 		t, err := se.evalBool(st.Value)
 		if err != nil {
@@ -1085,8 +1092,65 @@ func (e *Enc) execGo(x *ssa.Go) error {
 	return e.runHooks("after", x, args, nil)
 }
 
-func (e *Enc) onChanRecv(x *ssa.UnOp)            {}
-func (e *Enc) onSelect(x *ssa.Select, idx Term) {}
+// closesOnlyField: v is a load of a struct field declared `closesonly`.
+func (e *Enc) closesOnlyField(v ssa.Value) bool {
+	u, ok := v.(*ssa.UnOp)
+	if !ok || u.Op != token.MUL {
+		return false
+	}
+	fa, ok := u.X.(*ssa.FieldAddr)
+	if !ok {
+		return false
+	}
+	st := derefType(fa.X.Type())
+	n, ok := st.(*types.Named)
+	if !ok {
+		return false
+	}
+	fname := st.Underlying().(*types.Struct).Field(fa.Field).Name()
+	for _, co := range e.prog.cs.ClosesOnly {
+		if n.Obj().Pkg() != nil && n.Obj().Pkg().Path() == co.PkgPath && n.Obj().Name() == co.Type && fname == co.Field {
+			return true
+		}
+	}
+	return false
+}
+
+// onChanRecv: a completed receive on a closes-only channel means the channel has been closed
+// (nothing is ever sent on it: site frame; close/receive happens-before: trusted Go semantics).
+func (e *Enc) onChanRecv(x *ssa.UnOp) {
+	if e.closesOnlyField(x.X) {
+		name := "G$closedchans"
+		cl := e.lookup(e.cur, name, ArraySort(SInt, SBool))
+		e.sc.AssertNamed(Implies(e.curGuard, Select(cl, e.val(x.X))), "receive on a closes-only channel completed: it is closed")
+		e.assumed["a receive on a channel nothing is sent on completes only after the channel was closed (Go channel semantics, trusted)"] = true
+	}
+}
+// onSelect: ghost hooks anchored at select arms: `ghost after call select:arm<k> : ...` runs when arm k was chosen.
+func (e *Enc) onSelect(x *ssa.Select, idx Term) {
+	if e.fc == nil {
+		return
+	}
+	for k := range x.States {
+		k := k
+		name := fmt.Sprintf("select:arm%d", k)
+		has := false
+		for _, h := range e.fc.Hooks {
+			if h.Callee == name {
+				has = true
+			}
+		}
+		if !has {
+			continue
+		}
+		err := e.conditionally(Eq(idx, IntLit(int64(k))), func() error {
+			return e.runHooksNamed("after", name, 0, x, nil, nil)
+		})
+		if err != nil {
+			panic(unsupportedErr(err.Error()))
+		}
+	}
+}
 
 // callWrites adds the writes of a call inside a loop to ws; returns true when everything may change.
 func (e *Enc) callWrites(li *loopInfo, ci ssa.CallInstruction, ws writeSets) bool {
